@@ -42,5 +42,9 @@ Run(t, w) == /\ ts[t] = "submitted" /\ ws[w] = "running"
              /\ ts' = [ts EXCEPT ![t] = "done"] /\ runs' = [runs EXCEPT ![t] = @ + 1]
              /\ UNCHANGED <<ws, elastic, op>>
 AllRanOnce == \A t \in Task : ts[t] # "none" => (ts[t] = "done" /\ runs[t] = 1)
+\* "tasks continue to complete on the remaining workers": in a pool whose policy steals, work parked on
+\* sleeping workers is taken over by the running ones, so a submitter that waits while at least one worker
+\* runs eventually sees no outstanding task
+NoneOutstanding == \A t \in Task : ts[t] # "submitted"
 AllRunning == \A w \in Worker : ws[w] = "running"
 =============================================================================
